@@ -5,7 +5,7 @@ KEYS['keepstore_c07'] = {'pkg': 'services/keepstore'}
 
 CHECKS['C07']['units'].append(
     unit('keepstore', 'keepstore_c07', '^TestVerifC07Keepstore',
-         {'shards': 8, 'checks': 200}, {'shards': 16, 'checks': 10000, 'timeout': 3000}))
+         {'shards': 8, 'checks': 200}, {'shards': 16, 'checks': 4000, 'timeout': 3000}))
 
 CHECKS['C07']['rule'] += (
     '; keepstore unit: one real handler with BlobSigning on and stored blocks of 0..70000 bytes, per case a generated '
